@@ -493,6 +493,7 @@ struct Pg {
     jumpis:  usize,
     used_offs: BTreeSet<U256>,
     used_keys: BTreeSet<U256>,
+    key_salt: u64,
 }
 fn be_min(x: U256) -> Vec<u8> { let b = x.to_be_bytes(); let z = b.iter().take_while(|v| **v == 0).count(); b[z..].to_vec() }
 impl Pg {
@@ -510,7 +511,21 @@ impl Pg {
         if b.is_empty() { self.code.push(0x5f); } else { self.code.push(0x5f + b.len() as u8); self.code.extend(&b); }
         self.depth += 1;
     }
+    /// push with the minimal encoding (no random padding), so that repeated computations are byte-identical
+    fn push_exact(&mut self, x: U256) { let b = be_min(x); if b.is_empty() { self.code.push(0x5f); } else { self.code.push(0x5f + b.len() as u8); self.code.extend(&b); } self.depth += 1; }
     fn op(&mut self, op: u8, pops: usize, pushes: usize) { self.code.push(op); self.depth = self.depth - pops + pushes; }
+    /// a storage key / memory offset, sometimes as a constant COMPUTATION (a + b, a ^ b, a << 1) instead of a literal
+    fn push_key(&mut self, k: U256) {
+        // the SAME computation every time a key is used (the tool keys its symbolic storage by the key EXPRESSION, so
+        // only syntactically identical computations are expected to alias; see DESIGN.md D23)
+        let variant = (k.as_u64() ^ (k >> 64u32).as_u64() ^ self.key_salt) % 8;
+        match variant {
+            0 => { let a = U256::new(1 + (self.key_salt % 7) as u128); self.push_exact(k.wrapping_sub(a)); self.push_exact(a); self.op(0x01, 2, 1); }
+            1 => { let a = U256::new(0xff00 + (self.key_salt % 200) as u128); self.push_exact(k ^ a); self.push_exact(a); self.op(0x18, 2, 1); }
+            2 if k & U256::ONE == U256::ZERO && k >> 255u32 == U256::ZERO => { self.push_exact(k >> 1u32); self.push_exact(U256::ONE); self.op(0x1b, 2, 1); }
+            _ => self.push(k),
+        }
+    }
     fn off(&mut self) -> U256 { let o = self.offs[self.rng.below(self.offs.len() as u64) as usize]; self.used_offs.insert(o); o }
     fn key(&mut self) -> U256 { let k = self.keys[self.rng.below(self.keys.len() as u64) as usize]; self.used_keys.insert(k); k }
     fn place_label(&mut self, stop_first: bool) {
@@ -633,7 +648,7 @@ fn gen_program(seed: u64, max_jumpi: usize) -> (Vec<u8>, BTreeSet<U256>, BTreeSe
     let keys = key_pool(&mut rng, &words);
     let steps = 4 + rng.below(36);
     let deep = rng.below(5) == 0;
-    let mut g = Pg { code: vec![], depth: 0, rng, words, offs, keys, pending: vec![], jumpis: 0, used_offs: BTreeSet::new(), used_keys: BTreeSet::new() };
+    let mut g = Pg { code: vec![], depth: 0, rng, words, offs, keys, pending: vec![], jumpis: 0, key_salt: seed, used_offs: BTreeSet::new(), used_keys: BTreeSet::new() };
     if deep { for _ in 0..17 { let x = g.operand(); g.push(x); } }
     for _ in 0..steps { g.step(max_jumpi); }
     while !g.pending.is_empty() {
@@ -838,4 +853,33 @@ fn c07_diff_memory_storage_branches() {
         if check_program(&c, &BTreeSet::new(), &keys, &mut rep) { cases += 1; }
     }
     rep.finish("c07_diff_memory_storage_branches", cases);
+}
+
+/// storage keys given by a constant COMPUTATION.  Through the same value (DUP) a store must be seen by the load;
+/// that a computed key is not identified with the same key written as a literal is the recorded deviation D23
+/// (the symbolic storage is keyed by the key expression; folding keys breaks pinned contract tests).
+#[test]
+fn c07_diff_computed_storage_keys() {
+    let mut cases = 0;
+    let top = |code: &[u8]| -> Option<E2> { run_symbolic(code, &BTreeSet::new(), &BTreeSet::new()).ok().and_then(|v| v.into_iter().next()).and_then(|s| s.stack.first().copied()) };
+    for (a, b, opc) in [(2u8, 1u8, 0x01u8), (0xff, 0x01, 0x01), (0x20, 0x01, 0x1b), (0x0f, 0xf0, 0x18), (0x07, 0x03, 0x02)] {
+        for v in [7u8, 0xff] {
+            // PUSH a PUSH b OP -> k ; DUP1 ; PUSH v ; SWAP1 ; SSTORE ; SLOAD    => stack [v]
+            let code = vec![0x60, a, 0x60, b, opc, 0x80, 0x60, v, 0x90, 0x55, 0x54, 0x00];
+            match top(&code) {
+                Some((raw, folded)) if raw == Some(U256::new(v as u128)) && folded == Some(U256::new(v as u128)) => {}
+                got => witness("C07", "diff.storage_computed_key_same_value", format!("k = {a:#x} op{opc:#04x} {b:#x}; sstore(k,{v}); sload(k) with k DUPed: {code:02x?}"), format!("{got:x?}"), format!("{v:#x}")),
+            }
+            // the same store, then a load through the LITERAL key: EVM gives v; the tool answers with the unwritten placeholder (D23)
+            let k = match opc { 0x01 => b.wrapping_add(a) as u128, 0x1b => (a as u128) << b, 0x18 => (a ^ b) as u128, _ => (a as u128) * (b as u128) };
+            let mut code = vec![0x60, v, 0x60, a, 0x60, b, opc, 0x55];
+            code.extend([0x61, (k >> 8) as u8, k as u8, 0x54, 0x00]);
+            match top(&code) {
+                Some((raw, _)) if raw == Some(U256::new(v as u128)) => {}
+                got => witness("C07", "storage.computed_key_not_aliased_with_literal", format!("sstore({a:#x} op{opc:#04x} {b:#x}, {v}); sload({k:#x}): {code:02x?}"), format!("{got:x?}"), format!("{v:#x}")),
+            }
+            cases += 2;
+        }
+    }
+    println!("CASES c07_computed_keys {cases}");
 }
